@@ -263,6 +263,48 @@ func c09Scenarios(tier string) []*world.Scenario {
 		sc.Name = fmt.Sprintf("C09/oversize-merged-mget,%s/d3", strings.Join(tail, ","))
 		out = append(out, sc)
 	}
+	// multi-key requests whose keys share a slot (ONE fragment carrying several keys; two fragments of which one carries
+	// two keys) from an open-loop client: the reply goes out when the last fragment is answered
+	for _, shape := range []string{"del-2same", "mget-2same", "mset-2same", "del-2same+1", "mget-3same"} {
+		ka := keysA[0]
+		t1, t2, t3 := "{"+ka+"}x", "{"+ka+"}y", "{"+ka+"}z"
+		var r Req
+		nfr := 1
+		keys := []string{t1, t2}
+		switch shape {
+		case "del-2same":
+			r = DelReq(t1, t2)
+		case "mget-2same":
+			r = MGetReq(t1, t2)
+		case "mset-2same":
+			r = MSetReq(t1, "1", t2, "2")
+		case "del-2same+1":
+			r = DelReq(t1, keysB[0], t2)
+			nfr, keys = 2, []string{t1, t2, keysB[0]}
+		case "mget-3same":
+			r = MGetReq(t1, t2, t3)
+			keys = []string{t1, t2, t3}
+		}
+		sc := c09Scenario([]string{"FA", "FB"}, 3)
+		f1, f2 := GetReq(keysA[1]), GetReq(keysB[1])
+		cs := ClientOf([]Req{r, f1, f2}, false)
+		sc.Clients = []world.ClientSpec{cs}
+		frs := []fwdReq{{keys: keys, nfrags: nfr}, {keys: []string{keysA[1]}, nfrags: 1}, {keys: []string{keysB[1]}, nfrags: 1}}
+		sc.Quiescent = func(w *world.World) *world.Violation {
+			if vsys.EfdReady() || len(w.Clients) == 0 || !w.Clients[0].Accepted || w.Clients[0].Sock.Closed {
+				return nil
+			}
+			m := answeredPrefix(w, frs)
+			if got := w.Clients[0].NReplies; got < m {
+				return &world.Violation{Sig: "withheld-behind-incomplete-successor", Msg: fmt.Sprintf(
+					"the proxy has read the backends' replies for requests 1..%d but the client has only received %d replies (%q) and the loop is about to block", m, got, w.Clients[0].Received)}
+			}
+			return nil
+		}
+		sc.Family = "open-loop-shared-slot"
+		sc.Name = fmt.Sprintf("C09/shared-slot/%s,FA,FB/d3", shape)
+		out = append(out, sc)
+	}
 	// a client with a reply backlog behind a full socket is closed by the proxy: the others' replies keep flowing
 	for _, how := range []string{"quit", "garbage", "fin"} {
 		out = append(out, CloseClientWithBacklog("C09", how, 2))
@@ -747,6 +789,41 @@ func c07Scenarios(tier string) []*world.Scenario {
 			sc.Clients[0].Chunks = []world.Chunk{{Data: append(append([]byte{}, pairs[n][0].Bytes...), pairs[n][1].Bytes...)}, {Data: PingReq().Bytes, WaitReplies: 2}}
 			sc.OrderSites = nil
 			sc.Family = "pipelined-pair"
+			out = append(out, sc)
+		}
+	}
+	// every fragment of the request is answered with a redirect first (the keys' range has just moved to another node): the
+	// merged result is the same, for 2, 6 and 9 fragments
+	for _, kind := range []string{"mget", "del", "mset"} {
+		for _, nf := range []int{2, 6, 9} {
+			initSlotKeys()
+			var ks []string
+			for i := 0; i < nf; i++ {
+				ks = append(ks, slotKeys[200+i*11])
+			}
+			var r Req
+			switch kind {
+			case "mget":
+				r = MGetReq(ks...)
+			case "del":
+				r = DelReq(ks...)
+			default:
+				var kv []string
+				for _, k := range ks {
+					kv = append(kv, k, "v")
+				}
+				r = MSetReq(kv...)
+			}
+			sc := c07Scenario(fmt.Sprintf("%s-%dfragments-all-moved", kind, nf), r, nil, 1)
+			sc.OrderSites = nil
+			sc.ReadCap, sc.WriteCap, sc.Family = 4096, 4096, "all-fragments-redirected"
+			kd := kind
+			sc.Reply = func(w *world.World, bc *world.BConn, args [][]byte) ([]byte, int) {
+				if bc.Addr == AddrA && len(args) > 1 && world.SpecSlot(args[1]) <= 5460 && world.Lower(args[0]) == kd {
+					return movedTo(world.SpecSlot(args[1]), AddrB), 0
+				}
+				return nil, 0
+			}
 			out = append(out, sc)
 		}
 	}
